@@ -45,6 +45,9 @@ func (cl *Client) TGSExchange(tgsReq messages.TGSReq, kdcRealm string, tgt messa
 		return tgsReq, tgsRep, krberror.Errorf(err, krberror.EncodingError, "TGS Exchange Error: TGS_REP is not valid")
 	}
 
+	if tgsRep.CRealm != cl.Credentials.Domain() {
+		return tgsReq, tgsRep, krberror.NewErrorf(krberror.KRBMsgError, "TGS Exchange Error: CRealm in response does not match the client's realm. Expected: %s; Reply: %s", cl.Credentials.Domain(), tgsRep.CRealm)
+	}
 	if len(tgsRep.Ticket.SName.NameString) < 1 {
 		return tgsReq, tgsRep, krberror.NewErrorf(krberror.KRBMsgError, "TGS Exchange Error: ticket in the TGS_REP has an empty SName")
 	}
